@@ -52,6 +52,7 @@ def facts(ctx):
         (chk, "hash = concat_and_hash(alg, &hash, Some(proof_hash));", "check right-sibling hash"),
         (chk, "if index - 1 < layer {", "check left sibling test"),
         (chk, "} else if index + 1 < layer {", "check right sibling test"),
+        (chk, "if index % 2 == 1 || index + 1 < layer { return false; }", "check absent-proof sibling test"),
         (chk, "self.hash_check(index, &hash)", "check final comparison"),
         (hc, "if let Some(h) = self.hashes.get(indx) { vec_compare(h, merkle_hash) } else { false }", "hash_check"),
         (cm, "let tree_row = std::cmp::min(max_proofs, m_tree.layers.len() - 1);", "stored row selection"),
